@@ -1184,6 +1184,7 @@ Section Main.
       { intros s2 E1 E2 E3. apply CInv_intro; [exact Hr|cbn; eauto|apply (SInv_view spec (Some t) (set_task t tk1 s)); auto| |].
         - apply (is_task_view (set_task t tk1 s)); auto. apply (is_task_upd s _ t None tk1 root U1 Ht).
         - split; [exact Hk|]. split; [exact Hst|]. exists tk1. destruct U1 as (G1 & _). unfold get in *. rewrite E1. exact G1. }
+      destruct (tk_cact tk); [|apply V; reflexivity].
       unfold pause_plain. destruct c as [cid f|cid|cid var v]; apply V; reflexivity.
   Qed.
 
